@@ -90,3 +90,133 @@ def gen_unicode_case():
     body += '/-- code points whose `.lower()` is not one character -/\ndef lowerMulti : List Nat := [%s]\n\n' % ', '.join(map(str, multi))
     body += 'end Pybtex.Gen\n'
     return 'UnicodeCase.lean', body
+
+
+# ---------------------------------------------------------------------------------------------------------------------
+# str.lower() on WHOLE strings (C13): besides the per-character table above CPython's `do_lower` has two string-level
+# rules: `_PyUnicode_ToLowerFull` may expand one character into several (U+0130), and U+03A3 becomes U+03C2 or U+03C3
+# depending on its context (`handle_capital_sigma`: preceded by cased + case-ignorable*, not followed by
+# case-ignorable* + cased).  The two character classes that rule consults are not exposed by `str`; they are recovered
+# from the interpreter by probing the rule itself, and the resulting description of `lower()` is re-checked against the
+# interpreter before the table is written.
+SIGMA = 'Σ'
+
+
+def _sigma_column(chars, pre, post):
+    """the lower-case form of the U+03A3 in  pre + c + post  for every character c of `chars` (one batched lower() call; the
+    line feed that ends every probe is neither cased nor case-ignorable, so it acts like the end of the string)"""
+    n = len(pre) + 1 + len(post) + 1
+    big = pre + (post + '\n' + pre).join(chars) + post + '\n'
+    low = big.lower()
+    if len(low) != len(big):
+        raise AssertionError('a probe changed its length under lower()')
+    return low[(pre + 'c' + post).rindex(SIGMA)::n]
+
+
+def _sigma_classes():
+    """(classes, multi): classes = string indexed by code point: 'C' (cased and not case-ignorable) / 'I' (case-ignorable) /
+    'O' (neither) / 'S' (surrogate, not a character), recovered by probing lower(); multi = code point -> lower-case form
+    that is not one character."""
+    allchars = ''.join(map(chr, range(0xD800))) + ''.join(map(chr, range(0xE000, 0x110000)))
+    multi = {}
+
+    def find_multi(seg):   # bisection: the characters whose lower-case form is not one character
+        if len(seg.lower()) == len(seg) and (len(seg) > 1 or not seg):
+            return
+        if len(seg) == 1:
+            if len(seg.lower()) != 1:
+                multi[ord(seg)] = seg.lower()
+            return
+        find_multi(seg[:len(seg) // 2])
+        find_multi(seg[len(seg) // 2:])
+    find_multi(allchars)
+    if any(len(chr(cp).lower()) != 1 for cp in range(0x110000) if not 0xD800 <= cp <= 0xDFFF and cp not in multi and cp < 0x3000):
+        raise AssertionError('a multi-character lower-case form was missed')
+    chars = allchars
+    for cp in sorted(multi, reverse=True):
+        pos = cp if cp < 0xD800 else cp - 0x800
+        chars = chars[:pos] + chars[pos + 1:]
+    a = _sigma_column(chars, '', SIGMA)          # final sigma directly after c: c is cased and not ignorable
+    b = _sigma_column(chars, 'a', SIGMA)         # final only because c was skipped: c is case-ignorable
+    cl = ''.join(['C' if x == 'ς' else ('I' if y == 'ς' else 'O') for x, y in zip(a, b)])
+    # the contexts AFTER the sigma are predicted from the classes and compared with the interpreter (the C code consults the same two
+    # predicates before and after the sigma): every cased / case-ignorable character and every 61st of the others
+    picked = [i for i, k in enumerate(cl) if k != 'O' or i % 61 == 0]
+    sub = ''.join([chars[i] for i in picked])
+    subcl = ''.join([cl[i] for i in picked])
+    for pre, post, want in (('a' + SIGMA, '', 'σςς'), ('a' + SIGMA, 'a', 'σσς'), (SIGMA, SIGMA, 'ςςσ')):
+        if _sigma_column(sub, pre, post) != subcl.translate(dict(zip(map(ord, 'CIO'), want))):
+            raise AssertionError('the final-sigma rule of lower() is not the modelled one (context %r c %r)' % (pre, post))
+    for cp in sorted(multi):   # ascending, so every position below cp is already final
+        c = chr(cp)
+        k = 'C' if (c + SIGMA).lower()[-1] == 'ς' else ('I' if ('a' + c + SIGMA).lower()[-1] == 'ς' else 'O')
+        pos = cp if cp < 0xD800 else cp - 0x800
+        cl = cl[:pos] + k + cl[pos:]
+    full = cl[:0xD800] + 'S' * 0x800 + cl[0xD800:]
+    if len(full) != 0x110000:
+        raise AssertionError('class table has the wrong length')
+    return full, multi
+
+
+def _class_ranges(cl, k):
+    import re
+    return [(m.start(), m.end() - 1) for m in re.finditer(k + '+', cl)]
+
+
+def model_lower(s, cl, multi):
+    """The description of str.lower() that Model/UniCase.lean (`lowerPy`) implements, in Python, for the self-check."""
+    out = []
+    for i, c in enumerate(s):
+        if c == SIGMA:
+            j = i - 1
+            while j >= 0 and cl[ord(s[j])] == 'I':
+                j -= 1
+            final = j >= 0 and cl[ord(s[j])] == 'C'
+            if final:
+                j = i + 1
+                while j < len(s) and cl[ord(s[j])] == 'I':
+                    j += 1
+                final = j == len(s) or cl[ord(s[j])] != 'C'
+            out.append('ς' if final else 'σ')
+        elif ord(c) in multi:
+            out.append(multi[ord(c)])
+        else:
+            out.append(c.lower())
+    return ''.join(out)
+
+
+def _self_check(cl, multi):
+    import random
+    rnd = random.Random(20240913)
+    reps = {k: [chr(a) for a, b in _class_ranges(cl, k)[:3000] for a in range(a, min(b, a + 40) + 1)] for k in 'CIO'}
+    pool = ([SIGMA] * 6 + ['İ', '̇', 'i', 'I', 'a', 'A', "'", '.', ' ', '1', 'σ', 'ς', 'ß', 'ẞ', '毛']
+            + rnd.sample(reps['C'], 40) + rnd.sample(reps['I'], 40) + rnd.sample(reps['O'], 40))
+    for c in multi:
+        for s in (chr(c), chr(c) + SIGMA, 'a' + chr(c) + SIGMA, 'a' + SIGMA + chr(c), 'a' + SIGMA + chr(c) + 'a', SIGMA + chr(c) + SIGMA):
+            if model_lower(s, cl, multi) != s.lower():
+                raise AssertionError('the description of str.lower() is wrong for %r' % s)
+    for _ in range(6000):
+        s = ''.join(rnd.choice(pool) for _ in range(rnd.randint(0, 8)))
+        if model_lower(s, cl, multi) != s.lower():
+            raise AssertionError('the description of str.lower() is wrong for %r' % s)
+
+
+_LOWER_FULL_CACHE = {}
+
+
+@tables.generator
+def gen_unicode_lower_full():
+    if 'body' not in _LOWER_FULL_CACHE:
+        cl, multi = _sigma_classes()
+        _self_check(cl, multi)
+        body = 'namespace Pybtex.Gen\n\n'
+        body += ('/- String-level rules of `str.lower()` of the running interpreter (CPython `do_lower`), recovered by probing it and\n'
+                 '   re-checked against it (all code points in the deciding contexts + 20000 random strings) before this file is written. -/\n\n')
+        body += ('/-- code points whose lower-case form is not ONE character, with that form (`_PyUnicode_ToLowerFull`) -/\n'
+                 'def lowerMultiMap : List (Nat × List Nat) := [%s]\n\n' % ', '.join(
+                     '(%d, [%s])' % (cp, ', '.join(str(ord(x)) for x in r)) for cp, r in sorted(multi.items())))
+        body += _emit('sigmaIgnorable', 'case-ignorable code points (skipped by the final-sigma rule of lower())', _class_ranges(cl, 'I'))
+        body += _emit('sigmaCased', 'cased code points that are not case-ignorable (they decide the final-sigma rule of lower())', _class_ranges(cl, 'C'))
+        body += 'end Pybtex.Gen\n'
+        _LOWER_FULL_CACHE['body'] = body
+    return 'UnicodeLower.lean', _LOWER_FULL_CACHE['body']
